@@ -143,6 +143,8 @@ pub struct IxState {
     pub unconstrained: bool,
     pub builds: usize,
     pub prev_trees: usize,
+    /// the metric the index had before its last effective metric change (cleared once checked)
+    pub prev_metric: Option<Metric>,
 }
 
 fn db_for<D: Distance>(raw: heed::Database<Bytes, Bytes>) -> Database<D> {
@@ -296,7 +298,7 @@ pub fn run_script(spec: &ScriptSpec, cfg: &ScriptCfg, append_as_add: bool, stats
     let mut st: Vec<IxState> = spec
         .indexes
         .iter()
-        .map(|i| IxState { metric: i.metric, items: BTreeMap::new(), built: None, stale: false, unconstrained: false, builds: 0, prev_trees: 0 })
+        .map(|i| IxState { metric: i.metric, items: BTreeMap::new(), built: None, stale: false, unconstrained: false, builds: 0, prev_trees: 0, prev_metric: None })
         .collect();
     let mut saved = st.clone();
     let mut wtxn: Option<RwTxn> = None;
@@ -362,6 +364,14 @@ pub fn run_script(spec: &ScriptSpec, cfg: &ScriptCfg, append_as_add: bool, stats
         let isp = &spec.indexes[ix].spec;
         let metric = st[ix].metric;
         let before = if cfg.isolation || cfg.rejected || cfg.metric_change { Some(raw_dump(w, raw).map_err(Fail::Infra)?) } else { None };
+        let mut passive_answers: BTreeMap<usize, Option<Vec<(u32, u32)>>> = BTreeMap::new();
+        if cfg.isolation {
+            for (j, other) in spec.indexes.iter().enumerate() {
+                if j != ix {
+                    passive_answers.insert(j, passive_query(raw, w, &other.spec, &st[j]));
+                }
+            }
+        }
         let need_before = if cfg.rejected {
             Some(with_metric!(metric, D => Writer::<D>::new(db_for::<D>(raw), isp.index, isp.dims).need_build(w)).map_err(|e| Fail::Infra(format!("need_build: {e:?}")))?)
         } else {
@@ -540,6 +550,15 @@ pub fn run_script(spec: &ScriptSpec, cfg: &ScriptCfg, append_as_add: bool, stats
                         st[ix].unconstrained = false;
                         st[ix].builds += 1;
                         stats.bump("builds_ok");
+                        if cfg.metric_change {
+                            if let Some(old) = st[ix].prev_metric.take() {
+                                if old != metric {
+                                    // C18: after the rebuild the index refuses to open under the old metric
+                                    with_metric!(old, OD => check_open::<OD>(raw, w, isp.index, OpenExpect::Unmatching, &format!("{ctx}, old metric after a metric change and rebuild")))?;
+                                    stats.bump("old_metric_refused");
+                                }
+                            }
+                        }
                         if let Some(bc) = &cfg.built {
                             let m = to_index_model(&st[ix]);
                             with_metric!(metric, D => interp::check_built_index::<D>(metric, db_for::<D>(raw), raw, w, isp, &m, Some(&b), *rng_seed as u32, bc, stats))?;
@@ -583,6 +602,7 @@ pub fn run_script(spec: &ScriptSpec, cfg: &ScriptCfg, append_as_add: bool, stats
                 }
                 if to != metric {
                     st[ix].items = convert_items(&st[ix].items, metric, to);
+                    st[ix].prev_metric = Some(metric);
                     st[ix].metric = to;
                     st[ix].built = None;
                     st[ix].prev_trees = 0;
@@ -607,6 +627,17 @@ pub fn run_script(spec: &ScriptSpec, cfg: &ScriptCfg, append_as_add: bool, stats
                 for (j, other) in spec.indexes.iter().enumerate() {
                     if j == ix {
                         continue;
+                    }
+                    // "hence with the same ... query answers": a passive, servable index answers a fixed query
+                    // exactly as it did before the step
+                    if let Some(prev) = passive_answers.get(&j) {
+                        let now = passive_query(raw, w, &other.spec, &st[j]);
+                        if now.is_some() && now != *prev {
+                            return violation(
+                                "isolation:answers",
+                                format!("{ctx} on index {} changed the answers of index {}: {:?} -> {:?}", isp.index, other.spec.index, prev, now),
+                            );
+                        }
                     }
                     let a = restrict(before, other.spec.index);
                     let b = restrict(&after, other.spec.index);
@@ -649,6 +680,20 @@ pub fn run_script(spec: &ScriptSpec, cfg: &ScriptCfg, append_as_add: bool, stats
     let rtxn = env.read_txn().map_err(|e| Fail::Infra(format!("{e}")))?;
     let final_dump = raw_dump(&rtxn, raw).map_err(Fail::Infra)?;
     Ok(ScriptOutcome { final_dump, commit_dumps })
+}
+
+/// A fixed default-budget query on a servable index (None when the index is not servable).
+fn passive_query(raw: heed::Database<Bytes, Bytes>, rtxn: &RoTxn, isp: &IndexSpec, s: &IxState) -> Option<Vec<(u32, u32)>> {
+    if s.built != Some(s.metric) || s.stale || s.items.is_empty() {
+        return None;
+    }
+    let q: Vec<f32> = (0..isp.dims).map(|i| 0.25 + i as f32 * 0.5).collect();
+    with_metric!(s.metric, D => {
+        match catch(|| Reader::<D>::open(rtxn, isp.index, db_for::<D>(raw)).and_then(|r| r.nns(4).by_vector(rtxn, &q))) {
+            Ok(Ok(v)) => Some(v.into_iter().map(|(i, d)| (i, d.to_bits())).collect()),
+            _ => Some(vec![(u32::MAX, u32::MAX)]),
+        }
+    })
 }
 
 pub fn first_diff(a: &RawDump, b: &RawDump) -> String {
